@@ -19,14 +19,15 @@ Definition upd (typ : N) (v : bytes) (f : lpf) : option lpf :=
 Lemma tl_enc_nonnil n : tl_enc n <> [].
 Proof. unfold tl_enc. destruct (n <=? 252); [discriminate|]. destruct (n <=? 65535); [discriminate|]. destruct (n <=? 4294967295); discriminate. Qed.
 
-Lemma lp_fields_cons fu typ v rest g : typ < two64 -> lenN v < two64 ->
+Lemma lp_fields_cons fu typ v rest g : typ < two64 -> lenN v < two63 ->
   lp_fields (S fu) (tlv typ v ++ rest) g = match upd typ v g with Some g' => lp_fields fu rest g' | None => None end.
 Proof.
   intros Ht Hv. cbn [lp_fields].
   destruct (tlv typ v ++ rest) as [|x l] eqn:E.
   { exfalso. unfold tlv in E. destruct (tl_enc typ) eqn:E2; [now apply tl_enc_nonnil in E2|discriminate]. }
   rewrite <- E. unfold tlv. rewrite <- !app_assoc.
-  rewrite tl_dec_enc by exact Ht. rewrite tl_dec_enc by exact Hv.
+  rewrite tl_dec_enc by exact Ht. rewrite tl_dec_enc by (unfold two63, two64 in *; lia).
+  replace (two63 <=? lenN v) with false by (unfold two63 in *; lia). rewrite Bool.andb_false_r. cbn [negb andb].
   replace (lenN (v ++ rest) <? lenN v) with false by (rewrite !lenN_spec, app_length; lia).
   rewrite takeN_app_exact, dropN_app_exact. unfold upd.
   destruct (typ =? T_SEQ); [reflexivity|]. destruct (typ =? T_IDX); [reflexivity|]. destruct (typ =? T_CNT); [reflexivity|].
@@ -39,7 +40,7 @@ Fixpoint apply_fields (l : list (N * bytes)) (g : lpf) : option lpf :=
   match l with [] => Some g | (t, v) :: r => match upd t v g with Some g' => apply_fields r g' | None => None end end.
 
 Lemma lp_fields_list : forall l g fu, (length l < fu)%nat ->
-  Forall (fun tv => fst tv < two64 /\ lenN (snd tv) < two64) l ->
+  Forall (fun tv => fst tv < two64 /\ lenN (snd tv) < two63) l ->
   lp_fields fu (enc_fields l) g = match apply_fields l g with Some g' => Some (Some g') | None => None end.
 Proof.
   induction l as [|[t v] l IH]; intros g fu Hfu Hok.
@@ -85,7 +86,7 @@ Definition olt (o : option N) : Prop := match o with Some x => x < two64 | None 
 Definition sendable (f : lpf) : Prop :=
   olt (f_seq f) /\ olt (f_idx f) /\ olt (f_cnt f) /\ olt (f_inface f) /\ olt (f_mark f) /\
   f_nexthop f = None /\ f_cachepol f = None /\ (exists c, f_frag f = Some c) /\
-  lenN (f_tok f) < two64 /\ (match f_frag f with Some c => lenN c < two64 | None => True end) /\ lenN (lp_inner f) < two64.
+  lenN (f_tok f) < two63 /\ (match f_frag f with Some c => lenN c < two63 | None => True end) /\ lenN (lp_inner f) < two64.
 
 Lemma apply_fields_list f : sendable f -> apply_fields (fields_list f) lpf_empty = Some f.
 Proof.
@@ -98,16 +99,16 @@ Proof.
     rewrite ?nat_of_be_be8, ?nat_of_be_nat_enc by assumption; reflexivity.
 Qed.
 
-Lemma fields_list_ok f : sendable f -> Forall (fun tv => fst tv < two64 /\ lenN (snd tv) < two64) (fields_list f).
+Lemma fields_list_ok f : sendable f -> Forall (fun tv => fst tv < two64 /\ lenN (snd tv) < two63) (fields_list f).
 Proof.
   destruct f as [sq ix ct tk inf nh cp mk fr].
   intros (_ & _ & _ & _ & _ & _ & _ & (c & Hfr) & Htk & Hfrl & _). cbn [f_tok f_frag] in *. subst fr.
-  assert (Hnat : forall n, lenN (nat_enc n) < two64).
-  { intros n. rewrite lenN_spec, nat_enc_length. pose proof (nat_len_bound n). unfold two64. lia. }
-  assert (Hbe : forall n, lenN (be 8 n) < two64) by (intros n; rewrite lenN_spec, be_length; unfold two64; lia).
+  assert (Hnat : forall n, lenN (nat_enc n) < two63).
+  { intros n. rewrite lenN_spec, nat_enc_length. pose proof (nat_len_bound n). unfold two63. lia. }
+  assert (Hbe : forall n, lenN (be 8 n) < two63) by (intros n; rewrite lenN_spec, be_length; unfold two63; lia).
   unfold fields_list. cbn [f_seq f_idx f_cnt f_tok f_inface f_mark f_frag].
-  assert (One : forall (t : N) (v : bytes), t < two64 -> lenN v < two64 ->
-                Forall (fun tv : N * bytes => fst tv < two64 /\ lenN (snd tv) < two64) [(t, v)]).
+  assert (One : forall (t : N) (v : bytes), t < two64 -> lenN v < two63 ->
+                Forall (fun tv : N * bytes => fst tv < two64 /\ lenN (snd tv) < two63) [(t, v)]).
   { intros t v Ht Hv. apply Forall_cons; [split; assumption|apply Forall_nil]. }
   apply Forall_app; split; [destruct sq; cbn [option_map olist]; [apply One; [reflexivity|apply Hbe]|apply Forall_nil]|].
   apply Forall_app; split; [destruct ix; cbn [option_map olist]; [apply One; [reflexivity|apply Hnat]|apply Forall_nil]|].
@@ -259,14 +260,14 @@ Proof.
     + unfold two64. lia.
     + unfold two64. lia.
     + exists c. reflexivity.
-    + unfold two64. lia.
-    + unfold two64. lia.
+    + unfold two63. lia.
+    + unfold two63. lia.
     + apply Hinner; reflexivity.
   - unfold sendable. cbn [f_seq f_idx f_cnt f_tok f_inface f_nexthop f_cachepol f_mark f_frag olt].
     repeat split; try assumption; try reflexivity.
     + exists c. reflexivity.
-    + unfold two64. lia.
-    + unfold two64. lia.
+    + unfold two63. lia.
+    + unfold two63. lia.
     + apply Hinner; reflexivity.
 Qed.
 
